@@ -212,10 +212,13 @@ static mut REC: Option<OsuPerformance<'static>> = None;
 static mut REC_CALLS: u32 = 0;
 
 /// Recording replacement for `OsuPerformance::calculate` (the float pp pipeline): keeps the builder it is called on.
-fn rec_calculate(this: OsuPerformance<'_>) -> Result<OsuPerformanceAttributes, ConvertError> {
+fn rec_calculate<'map>(this: OsuPerformance<'map>) -> Result<OsuPerformanceAttributes, ConvertError>
+where
+    'map: 'map, // early-bound, so that the generic parameter count matches the stubbed method
+{
     unsafe {
         REC_CALLS += 1;
-        REC = Some(mem::transmute::<OsuPerformance<'_>, OsuPerformance<'static>>(this));
+        REC = Some(mem::transmute::<OsuPerformance<'map>, OsuPerformance<'static>>(this));
     }
     Ok(OsuPerformanceAttributes::default())
 }
